@@ -2408,6 +2408,10 @@ DLLIMPORT int cfg_addlist(cfg_t *cfg, const char *name, unsigned int nvalues, ..
 		return CFG_FAIL;
 	}
 
+	/* Append to whatever the list holds, also to its default values */
+	if (nvalues)
+		opt->flags &= ~CFGF_RESET;
+
 	va_start(ap, nvalues);
 	cfg_addlist_internal(opt, nvalues, ap);
 	va_end(ap);
